@@ -19,13 +19,13 @@ Lemma set_dur_same w d k : w_dur w = d -> w_coord w = Some k -> set_dur_coord w 
 Proof. destruct w; cbn; intros <- ->; reflexivity. Qed.
 
 Lemma cstep_inv x a x' :
-  cstep cfixed x a = Some x' -> a <> CBase ACoordStoreTruncate ->
+  cstep cfixed x a = Some x' -> a <> CBase ACoordStoreTruncate -> a <> CBase ACoordStoreGiveUp ->
   inv_terms (cw x) /\ cfg_ok x -> inv_terms (cw x') /\ cfg_ok x'.
 Proof.
-  intros H Hna [Hi Hc]. destruct x as [w cfg]. unfold cfg_ok in *; cbn [cw cw_cfg] in *.
+  intros H Hna Hng [Hi Hc]. destruct x as [w cfg]. unfold cfg_ok in *; cbn [cw cw_cfg] in *.
   destruct a as [b| |]; cbn [cstep cw cw_cfg cfixed cv_base cv_stale_retry] in H.
   - destruct (step fixed w b) as [w'|] eqn:E; [|discriminate]. injection H as <-. cbn [cw cw_cfg]. split.
-    + eapply step_inv_terms; eauto. intro; subst; apply Hna; reflexivity.
+    + eapply step_inv_terms; eauto; intro; subst; [apply Hna | apply Hng]; reflexivity.
     + destruct (writes_store b) eqn:Hw.
       * destruct b; try discriminate Hw; destruct cfg as [[c []]|]; cbn; auto.
       * rewrite (step_dur_unchanged _ _ _ _ E Hw).
@@ -37,16 +37,21 @@ Proof.
     + destruct (w_dur w) eqn:Ed; [|discriminate]. injection H as <-. cbn. auto.
 Qed.
 
-Lemma cstore_atomic_cons a tl : cstore_atomic (a :: tl) -> a <> CBase ACoordStoreTruncate /\ cstore_atomic tl.
+Lemma cstore_sound_cons a tl :
+  cstore_sound (a :: tl) -> a <> CBase ACoordStoreTruncate /\ a <> CBase ACoordStoreGiveUp /\ cstore_sound tl.
 Proof.
-  unfold cstore_atomic. cbn. intros H. split; [intro; subst; apply H; left; reflexivity | intro; apply H; right; assumption].
+  unfold cstore_sound, cstore_atomic. cbn. intros [H1 H2]. repeat split.
+  - intro; subst; apply H1; left; reflexivity.
+  - intro; subst; apply H2; left; reflexivity.
+  - intro; apply H1; right; assumption.
+  - intro; apply H2; right; assumption.
 Qed.
 
 Lemma crun_inv tr : forall x x',
-  crun cfixed x tr = Some x' -> cstore_atomic tr -> inv_terms (cw x) /\ cfg_ok x -> inv_terms (cw x') /\ cfg_ok x'.
+  crun cfixed x tr = Some x' -> cstore_sound tr -> inv_terms (cw x) /\ cfg_ok x -> inv_terms (cw x') /\ cfg_ok x'.
 Proof.
   induction tr as [|a tl IH]; cbn; intros x x' H Hat Hi; [inversion H; subst; auto|].
-  destruct (cstep cfixed x a) eqn:E; [|discriminate]. apply cstore_atomic_cons in Hat. destruct Hat as [Ha Hat].
+  destruct (cstep cfixed x a) eqn:E; [|discriminate]. apply cstore_sound_cons in Hat. destruct Hat as (Ha & Hg & Hat).
   eapply IH; eauto. eapply cstep_inv; eauto.
 Qed.
 
@@ -55,7 +60,7 @@ Proof. split; [apply inv_terms_init | exact I]. Qed.
 
 (* C05 with ConfigChanged in the trace: every term on the wire is durable, at every point *)
 Theorem term_durable_before_use_cfg c0 nodes tr x :
-  crun cfixed (init_cworld c0 nodes) tr = Some x -> cstore_atomic tr ->
+  crun cfixed (init_cworld c0 nodes) tr = Some x -> cstore_sound tr ->
   exists d, w_dur (cw x) = DCell d /\
     (forall i n t, In (MNewTerm i n t) (w_msgs (cw x)) -> t <= c_term d) /\
     (forall i n t fm, In (MBecomeLeader i n t fm) (w_msgs (cw x)) -> t <= c_term d).
@@ -66,7 +71,7 @@ Qed.
 
 (* ... every election, in any incarnation, uses a term above everything ever sent *)
 Theorem restart_never_reuses_cfg c0 nodes tr x w' k' :
-  crun cfixed (init_cworld c0 nodes) tr = Some x -> cstore_atomic tr ->
+  crun cfixed (init_cworld c0 nodes) tr = Some x -> cstore_sound tr ->
   step fixed (cw x) ACoordStartElection = Some w' -> w_coord w' = Some k' ->
   (forall i n t, In (MNewTerm i n t) (w_msgs (cw x)) -> t < c_term (k_md k')) /\
   (forall i n t fm, In (MBecomeLeader i n t fm) (w_msgs (cw x)) -> t < c_term (k_md k')).
@@ -82,7 +87,7 @@ Qed.
 
 (* ... and at most one node is ever sent BecomeLeader in a term, hence at most one leader per term *)
 Theorem one_leader_per_term_cfg c0 nodes tr x :
-  crun cfixed (init_cworld c0 nodes) tr = Some x -> cstore_atomic tr ->
+  crun cfixed (init_cworld c0 nodes) tr = Some x -> cstore_sound tr ->
   forall n1 n2 t, In (n1, t) (w_wasleader (cw x)) -> In (n2, t) (w_wasleader (cw x)) -> n1 = n2.
 Proof.
   intros H Hat n1 n2 t H1 H2.
@@ -104,14 +109,14 @@ Definition tr_stale : list caction :=
 
 Theorem config_stale_retry_refuted :
   exists tr x d i n t,
-    crun cstale (init_cworld c_steady (fun _ => node_init)) tr = Some x /\ cstore_atomic tr /\
+    crun cstale (init_cworld c_steady (fun _ => node_init)) tr = Some x /\ cstore_sound tr /\
     w_dur (cw x) = DCell d /\ In (MNewTerm i n t) (w_msgs (cw x)) /\ c_term d < t /\
     exists w' k', step fixed (cw x) ACoordStartElection = Some w' /\ w_coord w' = Some k' /\ c_term (k_md k') <= t.
 Proof.
   exists tr_stale.
   destruct (crun cstale (init_cworld c_steady (fun _ => node_init)) tr_stale) as [x|] eqn:E; [|vm_compute in E; discriminate].
   exists x, c_steady, 1%nat, 2%N, 6.
-  split; [reflexivity|]. split; [unfold cstore_atomic, tr_stale; cbn; intuition discriminate|].
+  split; [reflexivity|]. split; [unfold cstore_sound, cstore_atomic, tr_stale; cbn; intuition discriminate|].
   vm_compute in E. injection E as <-. cbn [cw w_dur w_msgs].
   split; [reflexivity|]. split; [left; reflexivity|]. split; [cbn; lia|].
   eexists. eexists. split; [reflexivity|]. split; [reflexivity|]. cbn. lia.
